@@ -324,3 +324,305 @@ Qed.
 
 Lemma wf_run : forall evs s, wf s -> wf (run s evs).
 Proof. induction evs as [|e t IH]; intros s W; simpl; [exact W|]. apply IH. apply wf_step. exact W. Qed.
+
+(* ------------------------------------------------------------------ *)
+(* convergence: safety                                                 *)
+(* ------------------------------------------------------------------ *)
+
+Definition sys_event (e : event) : Prop := match e with ELoop _ | EDispatch _ => True | _ => False end.
+Definition served (s : st) (i : nat) : Prop := last_recv s i = Some (latest s).
+Definition todo (s : st) (i : nat) : Prop :=
+  exists cur msg, loop s = LDispatch cur msg /\ In i (from cur (subs s)).
+Definition pending (s : st) : Prop := tickp s = true \/ src s <> [] \/ unsubq s <> [].
+Definition J (s : st) : Prop :=
+  loop s = LExit \/ forall i, liveb s i = true -> served s i \/ todo s i \/ pending s.
+
+Lemma enter_todo : forall l m i, In i l -> exists cur msg, enter l m = LDispatch cur msg /\ In i (from cur l).
+Proof.
+  intros [|x t] m i H; [destruct H|]. exists x, m. split; [reflexivity|]. rewrite from_hd. exact H.
+Qed.
+
+Lemma liveb_In : forall s i, liveb s i = true -> In i (subs s).
+Proof. intros s i H. unfold liveb in H. apply andb_true_iff in H. apply memn_In. tauto. Qed.
+
+Lemma todo_advance : forall l cur j msg, NoDup l -> In cur l -> In j (from cur l) ->
+  j = cur \/ exists c', enter (after cur l) msg = LDispatch c' msg /\ In j (from c' l).
+Proof.
+  intros l cur j msg N Hc Hj. rewrite from_after in Hj by exact Hc.
+  destruct Hj as [Hj|Hj]; [left; congruence|right].
+  destruct (after cur l) as [|c' r'] eqn:A; [destruct Hj|].
+  exists c'. split; [reflexivity|]. rewrite (from_hd_after cur l c' r' N A). exact Hj.
+Qed.
+
+Lemma liveb_recv : forall s cur msg j cl',
+  cl' = upd cur (c_recv msg) (clients s) ->
+  (memn j (subs s) && match nth_error cl' j with Some c => creading c && negb (ccancel c) | None => false end) = liveb s j.
+Proof.
+  intros s cur msg j cl' E. subst. unfold liveb. f_equal.
+  destruct (Nat.eq_dec cur j) as [D|D].
+  - subst. rewrite nth_error_upd_same. destruct (nth_error (clients s) j); reflexivity.
+  - rewrite nth_error_upd_other by exact D. reflexivity.
+Qed.
+
+Lemma J_step : forall s e, wf s -> sys_event e -> J s -> J (step s e).
+Proof.
+  intros s e W Se Js.
+  break_step s e; try (destruct Se; fail); auto;
+    try (right; intros j Hl; right; left; apply liveb_In in Hl; simpl in Hl;
+         unfold todo; simpl; apply enter_todo; exact Hl).
+  - left. reflexivity.
+  - (* deliver to cur *)
+    destruct (wf_disp s W _ _ Lp) as [Hc Hm]. pose proof (wf_nodup s W) as N.
+    destruct Js as [Jx|Js]; [congruence|].
+    right. intros j Hl. unfold liveb in Hl. simpl in Hl.
+    rewrite (liveb_recv s cur msg j _ eq_refl) in Hl.
+    assert (Scur : served {| clients := upd cur (c_recv msg) (clients s); subs := subs s; src := src s;
+                     unsubq := unsubq s; tickp := tickp s; latest := latest s;
+                     loop := enter (after cur (subs s)) msg; trace := TDeliver cur msg :: trace s |} cur).
+    { unfold served, last_recv. simpl. rewrite nth_error_upd_same, Nc. simpl. congruence. }
+    destruct (Nat.eq_dec j cur) as [E|E]; [subst; left; exact Scur|].
+    destruct (Js j Hl) as [S|[T|P]].
+    + left. unfold served, last_recv in *. simpl. rewrite nth_error_upd_other by congruence. exact S.
+    + destruct T as [cur0 [msg0 [L0 T]]]. rewrite Lp in L0. inversion L0. subst cur0 msg0.
+      destruct (todo_advance _ _ _ msg N Hc T) as [X|[c' [X1 X2]]]; [congruence|].
+      right. left. exists c', msg. simpl. split; assumption.
+    + right. right. exact P.
+  - (* cur is cancelled: skipped *)
+    destruct (wf_disp s W _ _ Lp) as [Hc Hm]. pose proof (wf_nodup s W) as N.
+    destruct Js as [Jx|Js]; [congruence|].
+    right. intros j Hl. change (liveb s j = true) in Hl.
+    destruct (Nat.eq_dec j cur) as [E|E].
+    { subst. unfold liveb in Hl. rewrite Nc, Cc in Hl. simpl in Hl. rewrite !andb_false_r in Hl. discriminate. }
+    destruct (Js j Hl) as [S|[T|P]].
+    + left. exact S.
+    + destruct T as [cur0 [msg0 [L0 T]]]. rewrite Lp in L0. inversion L0. subst cur0 msg0.
+      destruct (todo_advance _ _ _ msg N Hc T) as [X|[c' [X1 X2]]]; [congruence|].
+      right. left. exists c', msg. simpl. split; assumption.
+    + right. right. exact P.
+  - destruct (wf_disp s W _ _ Lp) as [Hc Hm]. pose proof (wf_nodup s W) as N.
+    destruct Js as [Jx|Js]; [congruence|].
+    right. intros j Hl. change (liveb s j = true) in Hl.
+    destruct (Nat.eq_dec j cur) as [E|E].
+    { subst. unfold liveb in Hl. rewrite Nc in Hl. rewrite andb_false_r in Hl. discriminate. }
+    destruct (Js j Hl) as [S|[T|P]].
+    + left. exact S.
+    + destruct T as [cur0 [msg0 [L0 T]]]. rewrite Lp in L0. inversion L0. subst cur0 msg0.
+      destruct (todo_advance _ _ _ msg N Hc T) as [X|[c' [X1 X2]]]; [congruence|].
+      right. left. exists c', msg. simpl. split; assumption.
+    + right. right. exact P.
+Qed.
+
+Lemma registered_step : forall s e, sys_event e -> registered (step s e) = registered s.
+Proof.
+  intros s e Se. unfold registered.
+  break_step s e; try (destruct Se; fail); auto; rewrite Sr; reflexivity.
+Qed.
+
+Lemma run_app : forall s a b, run s (a ++ b) = run (run s a) b.
+Proof. intros. unfold run. apply fold_left_app. Qed.
+
+Lemma sys_run_inv : forall ks s, Forall sys_event ks -> wf s -> J s ->
+  J (run s ks) /\ registered (run s ks) = registered s.
+Proof.
+  induction ks as [|e t IH]; intros s F W Js; simpl; [auto|].
+  inversion F; subst.
+  destruct (IH (step s e)) as [A B]; [assumption|apply wf_step; exact W|apply J_step; assumption|].
+  split; [exact A|]. rewrite B. apply registered_step. assumption.
+Qed.
+
+Lemma quiescentb_spec : forall s, quiescentb s = true ->
+  loop s = LSelect /\ src s = [] /\ unsubq s = [] /\ tickp s = false.
+Proof.
+  intros s H. unfold quiescentb in H. destruct (loop s); try discriminate.
+  destruct (src s); [|discriminate]. destruct (unsubq s); [|discriminate].
+  destruct (tickp s); [discriminate|]. auto.
+Qed.
+
+(* C27_converge, safety half: for every history and every way the system
+   goroutines continue after the next tick, once they are at rest every live
+   subscriber's last message is the list the stream last produced. *)
+Theorem converge_safe : forall evs ks, Forall sys_event ks ->
+  let s0 := run init evs in
+  let s1 := run s0 (ETick :: ks) in
+  quiescentb s1 = true ->
+  forall i, liveb s1 i = true -> last_recv s1 i = Some (registered s0).
+Proof.
+  intros evs ks F s0 s1 Q i L.
+  assert (W0 : wf s0) by (apply wf_run; exact wf_init).
+  assert (Jt : J (step s0 ETick)).
+  { right. intros j _. right. right. left. reflexivity. }
+  destruct (sys_run_inv ks (step s0 ETick) F (wf_step _ _ W0) Jt) as [J1 R1].
+  change (run (step s0 ETick) ks) with s1 in *.
+  apply quiescentb_spec in Q. destruct Q as [Q1 [Q2 [Q3 Q4]]].
+  destruct J1 as [X|J1]; [congruence|].
+  destruct (J1 i L) as [S|[[c [m [T _]]]|[P|[P|P]]]]; try congruence.
+  unfold served in S. rewrite S. f_equal.
+  transitivity (registered s1); [unfold registered; rewrite Q2; reflexivity|].
+  rewrite R1. reflexivity.
+Qed.
+
+(* ------------------------------------------------------------------ *)
+(* convergence: the system goroutines come to rest (no stalled subscriber) *)
+(* ------------------------------------------------------------------ *)
+
+Definition pend (s : st) : nat := length (src s) + length (unsubq s) + (if tickp s then 1 else 0).
+Definition rem_of (lp : lstate) (l : list nat) : nat :=
+  match lp with LDispatch cur _ => length (from cur l) | _ => 0 end.
+Definition mu (s : st) : nat := pend s * (length (subs s) + 1) + rem_of (loop s) (subs s).
+Definition good (s : st) : Prop := wf s /\ no_stallb s = true /\ aliveb s = true.
+
+Lemma rem_enter : forall l m, rem_of (enter l m) l = length l.
+Proof. intros [|x t] m; simpl; [reflexivity|]. rewrite Nat.eqb_refl. reflexivity. Qed.
+
+Lemma rem_advance : forall l cur m, NoDup l -> In cur l ->
+  S (rem_of (enter (after cur l) m) l) = length (from cur l).
+Proof.
+  intros l cur m N H. rewrite (from_after _ _ H). simpl. f_equal.
+  destruct (after cur l) as [|c' r'] eqn:A; simpl; [reflexivity|].
+  rewrite (from_hd_after cur l c' r' N A). reflexivity.
+Qed.
+
+Lemma no_stall_spec : forall s, no_stallb s = true <-> forall i, In i (subs s) -> stalledb (clients s) i = false.
+Proof.
+  intro s. unfold no_stallb. rewrite forallb_forall. split; intros H i Hi; specialize (H i Hi).
+  - apply negb_true_iff in H. exact H.
+  - rewrite H. reflexivity.
+Qed.
+
+Lemma stalledb_upd_frame : forall (f : client -> client) i j l,
+  (forall c, creading (f c) = creading c /\ ccancel (f c) = ccancel c) ->
+  stalledb (upd i f l) j = stalledb l j.
+Proof.
+  intros f i j l Hf. unfold stalledb. destruct (Nat.eq_dec i j) as [E|E].
+  - subst. rewrite nth_error_upd_same. destruct (nth_error l j) as [c|]; simpl; [|reflexivity].
+    destruct (Hf c) as [A B]. rewrite A, B. reflexivity.
+  - rewrite nth_error_upd_other by exact E. reflexivity.
+Qed.
+
+Lemma enter_not_exit : forall l m, enter l m <> LExit.
+Proof. intros [|x t] m; simpl; discriminate. Qed.
+
+Lemma aliveb_spec : forall s, aliveb s = true <-> has_close (src s) = false /\ loop s <> LExit.
+Proof.
+  intro s. unfold aliveb. rewrite andb_true_iff, negb_true_iff.
+  destruct (loop s); split; intros [A B]; split; auto; try discriminate; congruence.
+Qed.
+
+Lemma step_tick_eq : forall s, loop s = LSelect -> tickp s = true ->
+  step s (ELoop BTick) = begin_dispatch (set_tickp s false).
+Proof. intros s L T. simpl. rewrite L. simpl. rewrite T. reflexivity. Qed.
+Lemma step_src_eq : forall s a r, loop s = LSelect -> src s = Item a :: r ->
+  step s (ELoop BSrc) = begin_dispatch (add_trace (TConsume a) (set_latest (set_src s r) a)).
+Proof. intros s a r L T. simpl. rewrite L. simpl. rewrite T. reflexivity. Qed.
+Lemma step_unsub_in : forall s i r, loop s = LSelect -> unsubq s = i :: r -> memn i (subs s) = true ->
+  step s (ELoop BUnsub) =
+  begin_dispatch (add_trace (TClosed i) (set_subs (set_clients (add_trace (TUnsubRet i) (set_unsubq s r))
+      (upd i c_close (clients s))) (remn i (subs s)))).
+Proof. intros s i r L T M. simpl. rewrite L. simpl. rewrite T. unf. rewrite M. reflexivity. Qed.
+Lemma step_unsub_out : forall s i r, loop s = LSelect -> unsubq s = i :: r -> memn i (subs s) = false ->
+  step s (ELoop BUnsub) = begin_dispatch (add_trace (TUnsubRet i) (set_unsubq s r)).
+Proof. intros s i r L T M. simpl. rewrite L. simpl. rewrite T. unf. rewrite M. reflexivity. Qed.
+
+Lemma drain_step_good : forall s e, good s -> drain_event s = Some e ->
+  good (step s e) /\ mu (step s e) < mu s.
+Proof.
+  intros s e [W [Ns Al]] De.
+  pose proof (wf_step s e W) as W'.
+  apply aliveb_spec in Al. destruct Al as [Hc Hl].
+  rewrite no_stall_spec in Ns.
+  unfold drain_event in De. destruct (loop s) as [|cur msg|] eqn:Lp; [| |congruence].
+  - (* at the select *)
+    destruct (src s) as [|[a|] r] eqn:Sr; simpl in De; [| |simpl in Hc; discriminate].
+    + destruct (unsubq s) as [|i r] eqn:Uq; simpl in De.
+      * destruct (tickp s) eqn:Tk; [|discriminate]. inversion De; subst e. clear De.
+        rewrite (step_tick_eq s Lp Tk) in *. unf.
+        split; [split; [exact W'|split]|].
+        { apply no_stall_spec. simpl. exact Ns. }
+        { apply aliveb_spec. simpl. rewrite Sr. split; [reflexivity|apply enter_not_exit]. }
+        unfold mu, pend. simpl. rewrite Sr, Uq, Tk, Lp, rem_enter. simpl. lia.
+      * inversion De; subst e. clear De. destruct (memn i (subs s)) eqn:Mi.
+        { rewrite (step_unsub_in s i r Lp Uq Mi) in *. unf.
+          split; [split; [exact W'|split]|].
+          { apply no_stall_spec. simpl. intros j Hj. apply remn_In in Hj. destruct Hj as [Hj Hne].
+            unfold stalledb. rewrite nth_error_upd_other by congruence. apply Ns. exact Hj. }
+          { apply aliveb_spec. simpl. rewrite Sr. split; [reflexivity|apply enter_not_exit]. }
+          unfold mu, pend. simpl. rewrite Sr, Uq, Lp, rem_enter. simpl.
+          pose proof (remn_length i (subs s)). destruct (tickp s); nia. }
+        { rewrite (step_unsub_out s i r Lp Uq Mi) in *. unf.
+          split; [split; [exact W'|split]|].
+          { apply no_stall_spec. simpl. exact Ns. }
+          { apply aliveb_spec. simpl. rewrite Sr. split; [reflexivity|apply enter_not_exit]. }
+          unfold mu, pend. simpl. rewrite Sr, Uq, Lp, rem_enter. simpl. destruct (tickp s); nia. }
+    + inversion De; subst e. clear De.
+      rewrite (step_src_eq s a r Lp Sr) in *. unf.
+      split; [split; [exact W'|split]|].
+      { apply no_stall_spec. simpl. exact Ns. }
+      { apply aliveb_spec. simpl. simpl in Hc. split; [exact Hc|apply enter_not_exit]. }
+      unfold mu, pend. simpl. rewrite Sr, Lp, rem_enter. simpl. nia.
+  - (* inside dispatch *)
+    inversion De; subst e. clear De.
+    destruct (wf_disp s W _ _ Lp) as [Hin Hm]. pose proof (wf_nodup s W) as N.
+    pose proof (wf_lt s W _ Hin) as Lt.
+    destruct (nth_error (clients s) cur) as [c|] eqn:Nc; [|apply nth_error_None in Nc; lia].
+    pose proof (Ns _ Hin) as St. unfold stalledb in St. rewrite Nc in St.
+    assert (E : step s (EDispatch true) = dispatch_one s cur msg true) by (simpl; rewrite Lp; reflexivity).
+    rewrite E in *. clear E. unfold dispatch_one in *. rewrite Nc in *.
+    pose proof (rem_advance (subs s) cur msg N Hin) as RA.
+    destruct (creading c) eqn:Rd; simpl in *.
+    + rewrite orb_true_r in *. unf.
+      split; [split; [exact W'|split]|].
+      { apply no_stall_spec. simpl. intros j Hj. rewrite stalledb_upd_frame by (intro; split; reflexivity).
+        apply Ns. exact Hj. }
+      { apply aliveb_spec. simpl. split; [exact Hc|apply enter_not_exit]. }
+      unfold mu, pend. simpl. rewrite Lp. simpl. lia.
+    + destruct (ccancel c) eqn:Cc; [|discriminate]. unf.
+      split; [split; [exact W'|split]|].
+      { apply no_stall_spec. simpl. exact Ns. }
+      { apply aliveb_spec. simpl. split; [exact Hc|apply enter_not_exit]. }
+      unfold mu, pend. simpl. rewrite Lp. simpl. lia.
+Qed.
+
+Lemma drain_none_quiescent : forall s, good s -> drain_event s = None -> quiescentb s = true.
+Proof.
+  intros s [W [Ns Al]] De. apply aliveb_spec in Al. destruct Al as [Hc Hl].
+  unfold drain_event, quiescentb in *. destruct (loop s); [|discriminate|congruence].
+  destruct (src s); simpl in *; [|discriminate].
+  destruct (unsubq s); simpl in *; [|discriminate].
+  destruct (tickp s); [discriminate|reflexivity].
+Qed.
+
+Lemma quiescent_drain_event : forall s, quiescentb s = true -> drain_event s = None.
+Proof.
+  intros s Q. unfold quiescentb, drain_event in *. destruct (loop s); try discriminate.
+  destruct (src s); [|discriminate]. destruct (unsubq s); [|discriminate].
+  destruct (tickp s); [discriminate|reflexivity].
+Qed.
+
+Theorem drain_quiescent : forall fuel s, good s -> mu s <= fuel -> quiescentb (drain fuel s) = true.
+Proof.
+  induction fuel as [|f IH]; intros s G M; simpl.
+  - destruct (drain_event s) as [e|] eqn:De; [|apply drain_none_quiescent; assumption].
+    destruct (drain_step_good s e G De) as [_ L]. lia.
+  - destruct (drain_event s) as [e|] eqn:De; [|apply drain_none_quiescent; assumption].
+    destruct (drain_step_good s e G De) as [G' L]. apply IH; [exact G'|lia].
+Qed.
+
+Lemma mu_bound : forall s, wf s -> mu s <= drain_bound s.
+Proof.
+  intros s W. unfold mu, drain_bound, pend.
+  assert (rem_of (loop s) (subs s) <= length (subs s)).
+  { unfold rem_of. destruct (loop s); try lia. apply from_length. }
+  destruct (tickp s); nia.
+Qed.
+
+Lemma drain_is_sys_run : forall fuel s, exists ks, Forall sys_event ks /\ drain fuel s = run s ks.
+Proof.
+  induction fuel as [|f IH]; intro s; simpl; [exists []; split; [constructor|reflexivity]|].
+  destruct (drain_event s) as [e|] eqn:De; [|exists []; split; [constructor|reflexivity]].
+  destruct (IH (step s e)) as [ks [F E]]. exists (e :: ks). split; [|exact E].
+  constructor; [|exact F]. unfold drain_event in De.
+  destruct (loop s); [|inversion De; exact I|discriminate].
+  destruct (negb (is_nil (src s))); [inversion De; exact I|].
+  destruct (negb (is_nil (unsubq s))); [inversion De; exact I|].
+  destruct (tickp s); [inversion De; exact I|discriminate].
+Qed.
